@@ -47,6 +47,9 @@ pub struct Spec {
     /// the layout and every link carry additional valid signatures by keys nobody trusts or authorises
     #[serde(default)]
     pub cosigned: bool,
+    /// the first differing link is signed by the base link's own key material under its other key id
+    #[serde(default)]
+    pub twin: bool,
 }
 
 /// Step `i` delegated by two authorised functionaries; the copy filed by `bad` cannot verify.
@@ -199,6 +202,15 @@ fn build_inner(spec: &Spec) -> Option<World> {
             spare.push(k.clone());
         }
     }
+    if spec.twin {
+        if let Some(t) = twin_of(&template.filed_under) {
+            if !w.layout.keys.iter().any(|k| key_id_str(k) == key_id_str(&t)) {
+                w.layout.keys.push(t.clone());
+                w.layout.steps[i].pubkeys.push(t.clone());
+                spare.insert(0, t);
+            }
+        }
+    }
     if spare.is_empty() {
         return None;
     }
@@ -281,7 +293,7 @@ impl Property for C13 {
     fn rule() -> String {
         "Generated: valid worlds in which one step gets threshold <= 1 and 2-4 validly signed, authorised links that differ (extra product, \
          extra material, other digest, or only command/byproducts), optionally with a rule (DISALLOW variant-*) that only some of them \
-         violate, or with an artifact recorded under two digest algorithms that agree on one and differ on the other, tied by MATCH + DISALLOW; or the step is delegated by two authorised functionaries at threshold 1 and one of the two sub-layouts cannot verify (inner link missing / by a stranger, expired, inner rule failure, or its link directory removed, replaced by a regular file, by a dangling or by a self-referential symbolic link); a quarter of the worlds additionally carry three valid signatures by untrusted keys on the layout and on every link (more signatures than authorised keys); the files of the link directory are created in a generated order. Before the repetitions the process verifies the directory once while each link file is a same-size, same-mtime near copy of its final content (history on disk). Oracle (invariant over repetitions): R in-process \
+         violate, or with an artifact recorded under two digest algorithms that agree on one and differ on the other, tied by MATCH + DISALLOW; or the step is delegated by two authorised functionaries at threshold 1 and one of the two sub-layouts cannot verify (inner link missing / by a stranger, expired, inner rule failure, or its link directory removed, replaced by a regular file, by a dangling or by a self-referential symbolic link); in a quarter of the worlds the first differing link is signed by the base link's own key material under its other key id (Ed25519 raw/PKCS#8, RSA other PSS scheme); a quarter of the worlds additionally carry three valid signatures by untrusted keys on the layout and on every link (more signatures than authorised keys); the files of the link directory are created in a generated order. Before the repetitions the process verifies the directory once while each link file is a same-size, same-mtime near copy of its final content (history on disk). Oracle (invariant over repetitions): R in-process \
          repetitions (every HashMap gets fresh hash keys) and P fresh processes give the same verdict and, on success, the same summary \
          link as a JSON value. R=16,P=2 quick (miss probability for a fair flip 2^-17); R=64,P=8 thorough. Non-trivial: at least two counted \
          links of one step differ; distinct by (layout shape, variants, rule trap, step position)."
@@ -305,8 +317,9 @@ impl Property for C13 {
             prop_oneof![3 => Just(false), 1 => Just(true)],
             prop_oneof![5 => Just(None), 2 => (0u8..8).prop_map(Some)],
             prop_oneof![3 => Just(false), 1 => Just(true)],
+            prop_oneof![3 => Just(false), 1 => Just(true)],
         )
-            .prop_map(|((world, owners), step, variants, rule_trap, creation_order, two_digest_match, multi_party, surplus_sub, cosigned)| Spec { world, owners, step, variants, rule_trap, creation_order, two_digest_match, multi_party, surplus_sub, cosigned })
+            .prop_map(|((world, owners), step, variants, rule_trap, creation_order, two_digest_match, multi_party, surplus_sub, cosigned, twin)| Spec { world, owners, step, variants, rule_trap, creation_order, two_digest_match, multi_party, surplus_sub, cosigned, twin })
             .prop_filter("buildable", |s| build(s).is_some())
             .boxed()
     }
@@ -369,6 +382,9 @@ impl Property for C13 {
         }
         if spec.cosigned {
             o.class("cosigned-by-untrusted-keys");
+        }
+        if spec.twin {
+            o.class("differing-link-under-second-id-of-one-key");
         }
         if let Some(k) = spec.surplus_sub {
             o.class(format!("surplus-failing-sub-layout:{}", k % 8));
